@@ -111,6 +111,17 @@ func vpTraceBegin()
 func vpCrashCheck(mode string, spec string)
 func vpFreshBytes(b []byte) bool
 func vpNoteWrite(b []byte)
+func vpNote(label string, v interface{})
+func vpFsSnapshot(dir string) int
+func vpFsSame(a, b int) bool
+func vpFsPermute(on bool)
+func vpFsMutations() int
+func vpFsConfined(base string) bool
+func vpTraceEnd()
+func vpFaultDisarm()
+func vpNoteSecret(v interface{})
+func vpSecretFree(v interface{}) bool
+func vpClockGap(max int) int
 `
 
 // overlayFor builds the engine overlay for the given package dirs.
@@ -188,7 +199,7 @@ func run() int {
 	for i, d := range spec.Pkgs {
 		pats[i] = "./" + d
 	}
-	initPkgs := append([]string{"errors", "io", "internal/oserror", "io/fs", "bufio", "bytes", "strings", "strconv", "unicode/utf8", "encoding/binary", "math", "syscall", "time", "encoding/base64", "path/filepath", "sort", "context", "net/http"}, spec.InitPkgs...)
+	initPkgs := append([]string{"errors", "io", "internal/oserror", "io/fs", "bufio", "bytes", "strings", "strconv", "unicode/utf8", "encoding/binary", "math", "syscall", "time", "encoding/base64", "os", "path/filepath", "sort", "context", "net/http"}, spec.InitPkgs...)
 	for _, d := range spec.Pkgs {
 		initPkgs = append(initPkgs, repoMod+"/"+d)
 	}
